@@ -802,20 +802,55 @@ func (ig *Integration) setCols() {
 func (ig Integration) Name() string { return ig.name }
 
 func (ig Integration) Filter() glf.Filter {
-	var (
-		fields []string
-		addrs  []string
-	)
+	var fields []string
 	for i := range ig.Block {
 		fields = append(fields, ig.Block[i].Name)
+	}
+	return *glf.New(fields, ig.logAddrs(), [][]string{{eth.EncodeHex(ig.sighash)}})
+}
 
-		if ig.Block[i].Name == "log_addr" && len(ig.Block[i].Filter.Arg) > 0 {
-			for _, arg := range ig.Block[i].Filter.Arg {
-				addrs = append(addrs, eth.EncodeHex(eth.DecodeHex(arg)))
-			}
+// Addresses for the eth_getLogs request. The restriction is an
+// optimization: it must never exclude a log that the filters would
+// accept. Therefore a log_addr filter is only sent to the node when
+// it selects complete addresses by equality (contains, eq) and when
+// it has to hold for a row to be accepted: it is the only filter or
+// the filters are combined with and.
+func (ig Integration) logAddrs() []string {
+	active := func(f Filter) bool {
+		return len(f.Arg) > 0 || len(f.Ref.Integration) > 0
+	}
+	var nactive int
+	for _, inp := range ig.Event.Selected() {
+		if active(inp.Filter) {
+			nactive++
 		}
 	}
-	return *glf.New(fields, addrs, [][]string{{eth.EncodeHex(ig.sighash)}})
+	for i := range ig.Block {
+		if active(ig.Block[i].Filter) {
+			nactive++
+		}
+	}
+	if nactive > 1 && ig.filterAGG != "and" {
+		return nil
+	}
+	var addrs []string
+	for i := range ig.Block {
+		f := ig.Block[i].Filter
+		if ig.Block[i].Name != "log_addr" || len(f.Arg) == 0 {
+			continue
+		}
+		if f.Op != "contains" && f.Op != "eq" {
+			return nil
+		}
+		for _, arg := range f.Arg {
+			a := eth.DecodeHex(arg)
+			if len(a) != 20 {
+				return nil
+			}
+			addrs = append(addrs, eth.EncodeHex(a))
+		}
+	}
+	return addrs
 }
 
 func (ig Integration) Delete(ctx context.Context, pg wpg.Conn, n uint64) error {
